@@ -287,6 +287,34 @@ fn check_push(tr: &mut Translator, inst: Instruction, want: &Enc) {
     vassert!(tr.stacksize == ss && tr.programsize == ps, "C02.P.push.limits-untouched");
 }
 
+/// push_one without the (expensive) structural comparison of the recorded `Line`: items, address
+/// counter, label table and limits only.
+macro_rules! push_light {
+    ($name:ident, $inst:expr) => {
+        #[cfg_attr(kani, kani::proof)]
+        #[cfg_attr(kani, kani::unwind(8))]
+        #[cfg_attr(kani, kani::stub(std::hash::RandomState::new, fixed_random_state))]
+        pub(crate) fn $name() {
+            let mut tr = any_translator();
+            vassume(tr.next_addr <= 0xEF - 4);
+            #[allow(unused_imports)]
+            use Instruction::*;
+            let inst: Instruction = $inst;
+            vcover!(true, "pre");
+            let want = enc_ref(&inst, tr.next_addr);
+            let a0 = tr.next_addr;
+            let (ss, ps) = (tr.stacksize, tr.programsize);
+            tr.push_instruction(&inst, &None);
+            vassert!(tr.bytes.len() == 1, "C02.P.push.one-line-recorded");
+            vassert!(items_match(&tr.bytes[0].1, &want), "C02.P.push.items-are-documented-encoding");
+            vassert!(tr.next_addr == a0.wrapping_add(want.len as u8), "C02.P.push.address-counter-advances-by-emitted-bytes");
+            vassert!(tr.known_labels.is_empty(), "C02.P.push.label-table-untouched");
+            vassert!(tr.stacksize == ss && tr.programsize == ps, "C02.P.push.limits-untouched");
+            std::mem::forget(tr);
+            std::mem::forget(inst);
+        }
+    };
+}
 macro_rules! push_one {
     ($name:ident, $inst:expr) => {
         #[cfg_attr(kani, kani::proof)]
@@ -301,6 +329,7 @@ macro_rules! push_one {
             vcover!(true, "pre");
             let want = enc_ref(&inst, tr.next_addr);
             check_push(&mut tr, inst, &want);
+            std::mem::forget(tr);
         }
     };
 }
@@ -499,6 +528,9 @@ push_one!(c02_p_jns, Jns(SRC_LABEL.to_string()));
 push_one!(c02_p_jnc, Jnc(SRC_LABEL.to_string()));
 
 /// DEC with the memory operand forms 0x54-0x5F of the control store (one operand shape per harness).
+push_one!(c02_x_ldsp_r, Ldsp(src_shape(0)));
+push_one!(c02_x_ld_const, LdConstant(any_reg(), Constant::Constant(vany())));
+push_one!(c02_x_st_r, St(MemAddress::Register(any_reg()), any_reg()));
 push_one!(c02_p_dec_ind, Dec(src_shape(1)));
 push_one!(c02_p_dec_inc, Dec(src_shape(4)));
 push_one!(c02_p_dec_dinc, Dec(src_shape(5)));
@@ -644,5 +676,6 @@ pub(crate) fn c02_canary() {
 
 crate::replay_table!(verif_replay_c02;
     c02_p_clr, c02_p_inc, c02_p_dec, c02_p_add, c02_p_adc, c02_p_sub, c02_p_mul, c02_p_div, c02_p_xor, c02_p_and, c02_p_or, c02_p_neg, c02_p_com, c02_p_tst, c02_p_lsr, c02_p_asr, c02_p_lsl, c02_p_rrc, c02_p_rlc, c02_p_push, c02_p_pop, c02_p_pushf, c02_p_popf, c02_p_ret, c02_p_reti, c02_p_stop, c02_p_nop, c02_p_ei, c02_p_di, c02_p_jmp, c02_p_jr, c02_p_call, c02_p_jcs, c02_p_jcc, c02_p_jzs, c02_p_jzc, c02_p_jns, c02_p_jnc, c02_p_dec_ind, c02_p_dec_inc, c02_p_dec_dinc, c02_p_dec_const, c02_p_dec_abs, c02_d_org, c02_d_byte, c02_d_stacksize, c02_d_programsize, c02_e_mov_0_0, c02_e_ds_0_0, c02_e_mov_0_4, c02_e_ds_0_4, c02_e_mov_0_5, c02_e_ds_0_5, c02_e_mov_1_0, c02_e_ds_1_0, c02_e_mov_1_4, c02_e_ds_1_4, c02_e_mov_1_5, c02_e_ds_1_5, c02_e_mov_3_0, c02_e_ds_3_0, c02_e_mov_3_4, c02_e_ds_3_4, c02_e_mov_3_5, c02_e_ds_3_5, c02_e_mov_4_0, c02_e_ds_4_0, c02_e_mov_4_4, c02_e_ds_4_4, c02_e_mov_4_5, c02_e_ds_4_5, c02_e_s_0, c02_e_s_4, c02_e_s_5, c02_e_mov_0_3, c02_e_mov_0_7, c02_e_mov_3_3, c02_e_mov_3_7, c02_e_mov_4_7, c02_e_mov_0_1, c02_e_mov_0_2, c02_e_mov_0_6, c02_e_mov_2_0, c02_e_ds_2_0, c02_e_mov_2_4, c02_e_ds_2_4, c02_e_mov_2_5, c02_e_ds_2_5, c02_e_mov_3_1, c02_e_mov_3_2, c02_e_mov_3_6, c02_e_mov_4_1, c02_e_mov_4_2, c02_e_mov_4_6, c02_e_mov_5_0, c02_e_ds_5_0, c02_e_mov_5_4, c02_e_ds_5_4, c02_e_mov_5_5, c02_e_ds_5_5, c02_e_s_1, c02_e_s_2, c02_e_s_6, c02_e_s_7,
+    c02_x_ldsp_r, c02_x_ld_const, c02_x_st_r,
     c02_field_encoders, c02_canary,
 );
